@@ -745,7 +745,7 @@ theorem cosetTables_valid (n : Nat) (rels : List (List Int)) (k fuel : Nat)
     have hcan : ∀ c, t.canon c = c := canon_clean si.clean
     have hcomp : AllComplete t := fun c hc _ g hg => (get_some_iff t c g).mp (hdef c hc g hg)
     have hwr : ∀ w ∈ rels, WordOK t w := fun w hw y hy => by rw [si.allGens]; exact hlet w hw y hy
-    obtain ⟨v, h1, h2, h3⟩ := compact_view_valid (subs := []) si.tcq hcomp si.gens hlet
+    obtain ⟨v, _, h1, h2, h3, _⟩ := compact_view_valid (subs := []) si.tcq hcomp si.gens hlet
       (fun _ h => by cases h)
       (fun w hw c hc hl => by
         obtain ⟨d, hd⟩ := mtrace_total si.tcq hcomp w c (hwr w hw) hc hl
